@@ -214,7 +214,7 @@ Proof.
   induction 1 as [evaf pos|evaf pos toks F pre G pos' Hi Hp IH|evaf pos tok a pre G pos' Hns Hpl Ht Hm Hp IH
                    |evaf pos t a pre G pos' Hns Hpl Ht Hp IH|evaf pos a v1 vs t pre G pos' Hmv Hlen Hns Hpl Ht Hp IH].
   - cbn [shadow_run is_nil negb]. rewrite orb_false_r. reflexivity.
-  - rewrite shadow_run_app, (eng_item18 pc cur L toks F pos evaf Hi), IH.
+  - rewrite shadow_run_app, (eng_item18 pc cur L toks F Hi pos evaf), IH.
     pose proof (item18_nonempty pc toks F Hi) as Hne. destruct toks as [|t0 ts]; [discriminate|].
     cbn [app is_nil negb orb]. rewrite orb_true_r. reflexivity.
   - cbn [shadow_run]. destruct Ht as [_ [Hg [_ [_ Hct]]]].
